@@ -1,49 +1,76 @@
 // @unit c06_has_default property=C06 attach=typify-impl/src/structs.rs
-// @h c06_has_default_option_absent_null_bool tier=both
+// @h c06_has_default_option_absent tier=both
+// @h c06_has_default_option_null tier=both
+// @h c06_has_default_option_bool tier=thorough
 // @h c06_has_default_option_numbers tier=thorough
 // @h c06_has_default_option_strings tier=thorough
-// @h c06_has_default_option_arrays tier=thorough
-// @h c06_has_default_option_objects tier=thorough
-// @h c06_has_default_vec_absent_null_bool tier=thorough
+// @h c06_has_default_option_empty_array tier=thorough
+// @h c06_has_default_option_array1 tier=thorough
+// @h c06_has_default_option_empty_object tier=thorough
+// @h c06_has_default_vec_absent tier=thorough
+// @h c06_has_default_vec_null tier=thorough
+// @h c06_has_default_vec_bool tier=thorough
 // @h c06_has_default_vec_numbers tier=thorough
 // @h c06_has_default_vec_strings tier=thorough
-// @h c06_has_default_vec_arrays tier=both
-// @h c06_has_default_vec_objects tier=thorough
-// @h c06_has_default_map_absent_null_bool tier=both
+// @h c06_has_default_vec_empty_array tier=both
+// @h c06_has_default_vec_array1 tier=both
+// @h c06_has_default_vec_empty_object tier=thorough
+// @h c06_has_default_map_absent tier=both
+// @h c06_has_default_map_null tier=thorough
+// @h c06_has_default_map_bool tier=thorough
 // @h c06_has_default_map_numbers tier=thorough
 // @h c06_has_default_map_strings tier=thorough
-// @h c06_has_default_map_arrays tier=thorough
-// @h c06_has_default_map_objects tier=both
-// @h c06_has_default_unit_absent_null_bool tier=both
+// @h c06_has_default_map_empty_array tier=thorough
+// @h c06_has_default_map_array1 tier=thorough
+// @h c06_has_default_map_empty_object tier=both
+// @h c06_has_default_unit_absent tier=both
+// @h c06_has_default_unit_null tier=thorough
+// @h c06_has_default_unit_bool tier=thorough
 // @h c06_has_default_unit_numbers tier=thorough
 // @h c06_has_default_unit_strings tier=thorough
-// @h c06_has_default_unit_arrays tier=thorough
-// @h c06_has_default_unit_objects tier=thorough
-// @h c06_has_default_boolean_absent_null_bool tier=both
+// @h c06_has_default_unit_empty_array tier=thorough
+// @h c06_has_default_unit_array1 tier=thorough
+// @h c06_has_default_unit_empty_object tier=thorough
+// @h c06_has_default_boolean_absent tier=thorough
+// @h c06_has_default_boolean_null tier=thorough
+// @h c06_has_default_boolean_bool tier=both
 // @h c06_has_default_boolean_numbers tier=thorough
 // @h c06_has_default_boolean_strings tier=thorough
-// @h c06_has_default_boolean_arrays tier=thorough
-// @h c06_has_default_boolean_objects tier=thorough
-// @h c06_has_default_integer_absent_null_bool tier=thorough
+// @h c06_has_default_boolean_empty_array tier=thorough
+// @h c06_has_default_boolean_array1 tier=thorough
+// @h c06_has_default_boolean_empty_object tier=thorough
+// @h c06_has_default_integer_absent tier=thorough
+// @h c06_has_default_integer_null tier=thorough
+// @h c06_has_default_integer_bool tier=thorough
 // @h c06_has_default_integer_numbers tier=both
 // @h c06_has_default_integer_strings tier=thorough
-// @h c06_has_default_integer_arrays tier=thorough
-// @h c06_has_default_integer_objects tier=thorough
-// @h c06_has_default_string_absent_null_bool tier=thorough
+// @h c06_has_default_integer_empty_array tier=thorough
+// @h c06_has_default_integer_array1 tier=thorough
+// @h c06_has_default_integer_empty_object tier=thorough
+// @h c06_has_default_string_absent tier=thorough
+// @h c06_has_default_string_null tier=thorough
+// @h c06_has_default_string_bool tier=thorough
 // @h c06_has_default_string_numbers tier=thorough
 // @h c06_has_default_string_strings tier=both
-// @h c06_has_default_string_arrays tier=thorough
-// @h c06_has_default_string_objects tier=thorough
-// @h c06_has_default_float_absent_null_bool tier=thorough
+// @h c06_has_default_string_empty_array tier=thorough
+// @h c06_has_default_string_array1 tier=thorough
+// @h c06_has_default_string_empty_object tier=thorough
+// @h c06_has_default_float_absent tier=thorough
+// @h c06_has_default_float_null tier=thorough
+// @h c06_has_default_float_bool tier=thorough
 // @h c06_has_default_float_numbers tier=both
 // @h c06_has_default_float_strings tier=thorough
-// @h c06_has_default_float_arrays tier=thorough
-// @h c06_has_default_float_objects tier=thorough
-// @h c06_has_default_unresolved_absent_null_bool tier=both
+// @h c06_has_default_float_empty_array tier=thorough
+// @h c06_has_default_float_array1 tier=thorough
+// @h c06_has_default_float_empty_object tier=thorough
+// @h c06_has_default_unresolved_absent tier=both
+// @h c06_has_default_unresolved_null tier=thorough
+// @h c06_has_default_unresolved_bool tier=both
 // @h c06_has_default_unresolved_numbers tier=thorough
 // @h c06_has_default_unresolved_strings tier=thorough
-// @h c06_has_default_unresolved_arrays tier=thorough
-// @h c06_has_default_unresolved_objects tier=thorough
+// @h c06_has_default_unresolved_empty_array tier=thorough
+// @h c06_has_default_unresolved_array1 tier=thorough
+// @h c06_has_default_unresolved_empty_object tier=thorough
 // @canary canary_c06_has_default
 //
 // C06 -- classification of a property default (`structs::has_default`).
@@ -83,25 +110,24 @@ enum Shape {
     Object1,
 }
 
-/// `group` is concrete per harness (five groups of shapes); payloads are symbolic.
+/// `group` is concrete per harness and fixes the DISCRIMINANT of the JSON value (only payloads
+/// are symbolic): has_default clones the value, `Value::clone` is recursive, and with a
+/// symbolic discriminant CBMC unwinds the recursion through the array / object arms on every
+/// path (no result in 25 min).
 fn any_default(group: u8) -> (Option<Value>, Shape) {
-    let sel: bool = kani::any();
     match group {
-        0 => {
-            if sel {
-                (None, Shape::Absent)
-            } else if kani::any() {
-                (Some(Value::Null), Shape::Null)
-            } else {
-                let b: bool = kani::any();
-                (Some(Value::Bool(b)), Shape::Bool(b))
-            }
+        0 => (None, Shape::Absent),
+        1 => (Some(Value::Null), Shape::Null),
+        2 => {
+            let b: bool = kani::any();
+            (Some(Value::Bool(b)), Shape::Bool(b))
         }
-        1 => {
-            if sel {
+        3 => {
+            let sel: u8 = kani::any();
+            if sel == 0 {
                 let u: u64 = kani::any();
                 (Some(Value::Number(serde_json::Number::from(u))), Shape::PosInt(u))
-            } else if kani::any() {
+            } else if sel == 1 {
                 let i: i64 = kani::any();
                 kani::assume(i < 0);
                 (Some(Value::Number(serde_json::Number::from(i))), Shape::NegInt(i))
@@ -113,24 +139,18 @@ fn any_default(group: u8) -> (Option<Value>, Shape) {
                 )
             }
         }
-        2 => {
-            if sel {
+        4 => {
+            if kani::any() {
                 (Some(Value::String(String::new())), Shape::EmptyStr)
             } else {
                 (Some(Value::String(String::from("x"))), Shape::Str)
             }
         }
-        3 => {
-            if sel {
-                (Some(Value::Array(Vec::new())), Shape::EmptyArray)
-            } else {
-                (Some(Value::Array(vec![Value::Null])), Shape::Array1)
-            }
-        }
+        5 => (Some(Value::Array(Vec::new())), Shape::EmptyArray),
+        6 => (Some(Value::Array(vec![Value::Null])), Shape::Array1),
         _ => {
             // a NON-empty object default is out of reach: has_default clones it, and cloning a
             // string-keyed B-tree does not terminate in CBMC (15 min). Only `{}` is probed.
-            let _ = sel;
             (Some(Value::Object(serde_json::Map::new())), Shape::EmptyObject)
         }
     }
@@ -202,10 +222,7 @@ fn check(details: Option<TypeEntryDetails>, kind: Kind, group: u8) {
             kani::assert(false, "[C06/P4a] schema default dropped (property treated as having none)")
         }
     }
-    kani::cover!(
-        matches!(state, StructPropertyState::Default(_)) || shape == Shape::Absent,
-        "[must] Default(d) or the absent case reachable"
-    );
+    kani::cover!(matches!(state, StructPropertyState::Default(_)), "[info] Default(d) reachable");
     core::mem::forget(state);
     core::mem::forget(default);
     core::mem::forget(ts);
@@ -223,51 +240,78 @@ macro_rules! h {
     };
 }
 
-h!(c06_has_default_option_absent_null_bool, Some(TypeEntryDetails::Option(TypeId(7))), Kind::Option, 0);
-h!(c06_has_default_option_numbers, Some(TypeEntryDetails::Option(TypeId(7))), Kind::Option, 1);
-h!(c06_has_default_option_strings, Some(TypeEntryDetails::Option(TypeId(7))), Kind::Option, 2);
-h!(c06_has_default_option_arrays, Some(TypeEntryDetails::Option(TypeId(7))), Kind::Option, 3);
-h!(c06_has_default_option_objects, Some(TypeEntryDetails::Option(TypeId(7))), Kind::Option, 4);
-h!(c06_has_default_vec_absent_null_bool, Some(TypeEntryDetails::Vec(TypeId(7))), Kind::Vec, 0);
-h!(c06_has_default_vec_numbers, Some(TypeEntryDetails::Vec(TypeId(7))), Kind::Vec, 1);
-h!(c06_has_default_vec_strings, Some(TypeEntryDetails::Vec(TypeId(7))), Kind::Vec, 2);
-h!(c06_has_default_vec_arrays, Some(TypeEntryDetails::Vec(TypeId(7))), Kind::Vec, 3);
-h!(c06_has_default_vec_objects, Some(TypeEntryDetails::Vec(TypeId(7))), Kind::Vec, 4);
-h!(c06_has_default_map_absent_null_bool, Some(TypeEntryDetails::Map(TypeId(7), TypeId(8))), Kind::Map, 0);
-h!(c06_has_default_map_numbers, Some(TypeEntryDetails::Map(TypeId(7), TypeId(8))), Kind::Map, 1);
-h!(c06_has_default_map_strings, Some(TypeEntryDetails::Map(TypeId(7), TypeId(8))), Kind::Map, 2);
-h!(c06_has_default_map_arrays, Some(TypeEntryDetails::Map(TypeId(7), TypeId(8))), Kind::Map, 3);
-h!(c06_has_default_map_objects, Some(TypeEntryDetails::Map(TypeId(7), TypeId(8))), Kind::Map, 4);
-h!(c06_has_default_unit_absent_null_bool, Some(TypeEntryDetails::Unit), Kind::Unit, 0);
-h!(c06_has_default_unit_numbers, Some(TypeEntryDetails::Unit), Kind::Unit, 1);
-h!(c06_has_default_unit_strings, Some(TypeEntryDetails::Unit), Kind::Unit, 2);
-h!(c06_has_default_unit_arrays, Some(TypeEntryDetails::Unit), Kind::Unit, 3);
-h!(c06_has_default_unit_objects, Some(TypeEntryDetails::Unit), Kind::Unit, 4);
-h!(c06_has_default_boolean_absent_null_bool, Some(TypeEntryDetails::Boolean), Kind::Boolean, 0);
-h!(c06_has_default_boolean_numbers, Some(TypeEntryDetails::Boolean), Kind::Boolean, 1);
-h!(c06_has_default_boolean_strings, Some(TypeEntryDetails::Boolean), Kind::Boolean, 2);
-h!(c06_has_default_boolean_arrays, Some(TypeEntryDetails::Boolean), Kind::Boolean, 3);
-h!(c06_has_default_boolean_objects, Some(TypeEntryDetails::Boolean), Kind::Boolean, 4);
-h!(c06_has_default_integer_absent_null_bool, Some(TypeEntryDetails::Integer("i64".to_string())), Kind::Integer, 0);
-h!(c06_has_default_integer_numbers, Some(TypeEntryDetails::Integer("i64".to_string())), Kind::Integer, 1);
-h!(c06_has_default_integer_strings, Some(TypeEntryDetails::Integer("i64".to_string())), Kind::Integer, 2);
-h!(c06_has_default_integer_arrays, Some(TypeEntryDetails::Integer("i64".to_string())), Kind::Integer, 3);
-h!(c06_has_default_integer_objects, Some(TypeEntryDetails::Integer("i64".to_string())), Kind::Integer, 4);
-h!(c06_has_default_string_absent_null_bool, Some(TypeEntryDetails::String), Kind::String, 0);
-h!(c06_has_default_string_numbers, Some(TypeEntryDetails::String), Kind::String, 1);
-h!(c06_has_default_string_strings, Some(TypeEntryDetails::String), Kind::String, 2);
-h!(c06_has_default_string_arrays, Some(TypeEntryDetails::String), Kind::String, 3);
-h!(c06_has_default_string_objects, Some(TypeEntryDetails::String), Kind::String, 4);
-h!(c06_has_default_float_absent_null_bool, Some(TypeEntryDetails::Float("f64".to_string())), Kind::Other, 0);
-h!(c06_has_default_float_numbers, Some(TypeEntryDetails::Float("f64".to_string())), Kind::Other, 1);
-h!(c06_has_default_float_strings, Some(TypeEntryDetails::Float("f64".to_string())), Kind::Other, 2);
-h!(c06_has_default_float_arrays, Some(TypeEntryDetails::Float("f64".to_string())), Kind::Other, 3);
-h!(c06_has_default_float_objects, Some(TypeEntryDetails::Float("f64".to_string())), Kind::Other, 4);
-h!(c06_has_default_unresolved_absent_null_bool, None, Kind::Unresolved, 0);
-h!(c06_has_default_unresolved_numbers, None, Kind::Unresolved, 1);
-h!(c06_has_default_unresolved_strings, None, Kind::Unresolved, 2);
-h!(c06_has_default_unresolved_arrays, None, Kind::Unresolved, 3);
-h!(c06_has_default_unresolved_objects, None, Kind::Unresolved, 4);
+h!(c06_has_default_option_absent, Some(TypeEntryDetails::Option(TypeId(7))), Kind::Option, 0);
+h!(c06_has_default_option_null, Some(TypeEntryDetails::Option(TypeId(7))), Kind::Option, 1);
+h!(c06_has_default_option_bool, Some(TypeEntryDetails::Option(TypeId(7))), Kind::Option, 2);
+h!(c06_has_default_option_numbers, Some(TypeEntryDetails::Option(TypeId(7))), Kind::Option, 3);
+h!(c06_has_default_option_strings, Some(TypeEntryDetails::Option(TypeId(7))), Kind::Option, 4);
+h!(c06_has_default_option_empty_array, Some(TypeEntryDetails::Option(TypeId(7))), Kind::Option, 5);
+h!(c06_has_default_option_array1, Some(TypeEntryDetails::Option(TypeId(7))), Kind::Option, 6);
+h!(c06_has_default_option_empty_object, Some(TypeEntryDetails::Option(TypeId(7))), Kind::Option, 7);
+h!(c06_has_default_vec_absent, Some(TypeEntryDetails::Vec(TypeId(7))), Kind::Vec, 0);
+h!(c06_has_default_vec_null, Some(TypeEntryDetails::Vec(TypeId(7))), Kind::Vec, 1);
+h!(c06_has_default_vec_bool, Some(TypeEntryDetails::Vec(TypeId(7))), Kind::Vec, 2);
+h!(c06_has_default_vec_numbers, Some(TypeEntryDetails::Vec(TypeId(7))), Kind::Vec, 3);
+h!(c06_has_default_vec_strings, Some(TypeEntryDetails::Vec(TypeId(7))), Kind::Vec, 4);
+h!(c06_has_default_vec_empty_array, Some(TypeEntryDetails::Vec(TypeId(7))), Kind::Vec, 5);
+h!(c06_has_default_vec_array1, Some(TypeEntryDetails::Vec(TypeId(7))), Kind::Vec, 6);
+h!(c06_has_default_vec_empty_object, Some(TypeEntryDetails::Vec(TypeId(7))), Kind::Vec, 7);
+h!(c06_has_default_map_absent, Some(TypeEntryDetails::Map(TypeId(7), TypeId(8))), Kind::Map, 0);
+h!(c06_has_default_map_null, Some(TypeEntryDetails::Map(TypeId(7), TypeId(8))), Kind::Map, 1);
+h!(c06_has_default_map_bool, Some(TypeEntryDetails::Map(TypeId(7), TypeId(8))), Kind::Map, 2);
+h!(c06_has_default_map_numbers, Some(TypeEntryDetails::Map(TypeId(7), TypeId(8))), Kind::Map, 3);
+h!(c06_has_default_map_strings, Some(TypeEntryDetails::Map(TypeId(7), TypeId(8))), Kind::Map, 4);
+h!(c06_has_default_map_empty_array, Some(TypeEntryDetails::Map(TypeId(7), TypeId(8))), Kind::Map, 5);
+h!(c06_has_default_map_array1, Some(TypeEntryDetails::Map(TypeId(7), TypeId(8))), Kind::Map, 6);
+h!(c06_has_default_map_empty_object, Some(TypeEntryDetails::Map(TypeId(7), TypeId(8))), Kind::Map, 7);
+h!(c06_has_default_unit_absent, Some(TypeEntryDetails::Unit), Kind::Unit, 0);
+h!(c06_has_default_unit_null, Some(TypeEntryDetails::Unit), Kind::Unit, 1);
+h!(c06_has_default_unit_bool, Some(TypeEntryDetails::Unit), Kind::Unit, 2);
+h!(c06_has_default_unit_numbers, Some(TypeEntryDetails::Unit), Kind::Unit, 3);
+h!(c06_has_default_unit_strings, Some(TypeEntryDetails::Unit), Kind::Unit, 4);
+h!(c06_has_default_unit_empty_array, Some(TypeEntryDetails::Unit), Kind::Unit, 5);
+h!(c06_has_default_unit_array1, Some(TypeEntryDetails::Unit), Kind::Unit, 6);
+h!(c06_has_default_unit_empty_object, Some(TypeEntryDetails::Unit), Kind::Unit, 7);
+h!(c06_has_default_boolean_absent, Some(TypeEntryDetails::Boolean), Kind::Boolean, 0);
+h!(c06_has_default_boolean_null, Some(TypeEntryDetails::Boolean), Kind::Boolean, 1);
+h!(c06_has_default_boolean_bool, Some(TypeEntryDetails::Boolean), Kind::Boolean, 2);
+h!(c06_has_default_boolean_numbers, Some(TypeEntryDetails::Boolean), Kind::Boolean, 3);
+h!(c06_has_default_boolean_strings, Some(TypeEntryDetails::Boolean), Kind::Boolean, 4);
+h!(c06_has_default_boolean_empty_array, Some(TypeEntryDetails::Boolean), Kind::Boolean, 5);
+h!(c06_has_default_boolean_array1, Some(TypeEntryDetails::Boolean), Kind::Boolean, 6);
+h!(c06_has_default_boolean_empty_object, Some(TypeEntryDetails::Boolean), Kind::Boolean, 7);
+h!(c06_has_default_integer_absent, Some(TypeEntryDetails::Integer("i64".to_string())), Kind::Integer, 0);
+h!(c06_has_default_integer_null, Some(TypeEntryDetails::Integer("i64".to_string())), Kind::Integer, 1);
+h!(c06_has_default_integer_bool, Some(TypeEntryDetails::Integer("i64".to_string())), Kind::Integer, 2);
+h!(c06_has_default_integer_numbers, Some(TypeEntryDetails::Integer("i64".to_string())), Kind::Integer, 3);
+h!(c06_has_default_integer_strings, Some(TypeEntryDetails::Integer("i64".to_string())), Kind::Integer, 4);
+h!(c06_has_default_integer_empty_array, Some(TypeEntryDetails::Integer("i64".to_string())), Kind::Integer, 5);
+h!(c06_has_default_integer_array1, Some(TypeEntryDetails::Integer("i64".to_string())), Kind::Integer, 6);
+h!(c06_has_default_integer_empty_object, Some(TypeEntryDetails::Integer("i64".to_string())), Kind::Integer, 7);
+h!(c06_has_default_string_absent, Some(TypeEntryDetails::String), Kind::String, 0);
+h!(c06_has_default_string_null, Some(TypeEntryDetails::String), Kind::String, 1);
+h!(c06_has_default_string_bool, Some(TypeEntryDetails::String), Kind::String, 2);
+h!(c06_has_default_string_numbers, Some(TypeEntryDetails::String), Kind::String, 3);
+h!(c06_has_default_string_strings, Some(TypeEntryDetails::String), Kind::String, 4);
+h!(c06_has_default_string_empty_array, Some(TypeEntryDetails::String), Kind::String, 5);
+h!(c06_has_default_string_array1, Some(TypeEntryDetails::String), Kind::String, 6);
+h!(c06_has_default_string_empty_object, Some(TypeEntryDetails::String), Kind::String, 7);
+h!(c06_has_default_float_absent, Some(TypeEntryDetails::Float("f64".to_string())), Kind::Other, 0);
+h!(c06_has_default_float_null, Some(TypeEntryDetails::Float("f64".to_string())), Kind::Other, 1);
+h!(c06_has_default_float_bool, Some(TypeEntryDetails::Float("f64".to_string())), Kind::Other, 2);
+h!(c06_has_default_float_numbers, Some(TypeEntryDetails::Float("f64".to_string())), Kind::Other, 3);
+h!(c06_has_default_float_strings, Some(TypeEntryDetails::Float("f64".to_string())), Kind::Other, 4);
+h!(c06_has_default_float_empty_array, Some(TypeEntryDetails::Float("f64".to_string())), Kind::Other, 5);
+h!(c06_has_default_float_array1, Some(TypeEntryDetails::Float("f64".to_string())), Kind::Other, 6);
+h!(c06_has_default_float_empty_object, Some(TypeEntryDetails::Float("f64".to_string())), Kind::Other, 7);
+h!(c06_has_default_unresolved_absent, None, Kind::Unresolved, 0);
+h!(c06_has_default_unresolved_null, None, Kind::Unresolved, 1);
+h!(c06_has_default_unresolved_bool, None, Kind::Unresolved, 2);
+h!(c06_has_default_unresolved_numbers, None, Kind::Unresolved, 3);
+h!(c06_has_default_unresolved_strings, None, Kind::Unresolved, 4);
+h!(c06_has_default_unresolved_empty_array, None, Kind::Unresolved, 5);
+h!(c06_has_default_unresolved_array1, None, Kind::Unresolved, 6);
+h!(c06_has_default_unresolved_empty_object, None, Kind::Unresolved, 7);
 
 #[kani::proof]
 #[kani::unwind(24)]
